@@ -15,9 +15,10 @@ results = json.load(open(os.path.join(ROOT, "seeded", "RESULTS.json"))) if os.pa
 ENV = dict(os.environ)
 
 
-def run_demo(tree, demo):
+def run_demo(tree, demo, stubs=True):
     try:
-        r = subprocess.run(["/venv/bin/python", demo], env=dict(ENV, PYTHONPATH=tree + ":" + os.path.join(ROOT, "replay", "stubs")), capture_output=True, text=True, timeout=400, cwd=tree)
+        pp = tree + (":" + os.path.join(ROOT, "replay", "stubs") if stubs else "")
+        r = subprocess.run(["/venv/bin/python", demo], env=dict(ENV, PYTHONPATH=pp), capture_output=True, text=True, timeout=400, cwd=tree)
         out = (r.stdout + r.stderr).strip().splitlines()
         return r.returncode, [l for l in out if "PASS" in l or "FAIL" in l][-2:] or out[-1:]
     except subprocess.TimeoutExpired:
@@ -59,12 +60,19 @@ for d in sorted(os.listdir(os.path.join(ROOT, "seeded"))):
     subprocess.run(["git", "-C", "/repo", "worktree", "add", "-q", "--detach", wt, "HEAD"], check=True)
     try:
         meta["repo_head"] = subprocess.check_output(["git", "-C", "/repo", "rev-parse", "--short", "HEAD"]).decode().strip()
-        rc0, t0 = run_demo(wt, demo)
+        # demonstrations that bring their own prometheus stand-in must not see mine (replay/stubs): the mode in which the demonstration
+        # passes on the unchanged tree is the one used for the changed tree too
+        stubs = False
+        rc0, t0 = run_demo(wt, demo, stubs)
+        if rc0 != 0:
+            stubs = True
+            rc0, t0 = run_demo(wt, demo, stubs)
+        meta["demo_env"] = "PYTHONPATH=<tree>" + (":/verif/replay/stubs (prometheus_client stand-in)" if stubs else "")
         ap = subprocess.run(["git", "-C", wt, "apply", patch], capture_output=True, text=True)
         meta["applies_to_head"] = ap.returncode == 0
         ran = ["demo.py on the unchanged tree: exit %d %s" % (rc0, t0)]
         if ap.returncode == 0:
-            rc1, t1 = run_demo(wt, demo)
+            rc1, t1 = run_demo(wt, demo, stubs)
             ran.append("git apply patch.diff; demo.py on the changed tree: exit %d %s" % (rc1, t1))
             meta["demonstration"] = {"unchanged_tree_exit": rc0, "changed_tree_exit": rc1, "confirmed": rc0 == 0 and rc1 != 0}
             comp = subprocess.run(["/venv/bin/python", "-m", "compileall", "-q", os.path.join(wt, "more_executors")], capture_output=True, text=True)
